@@ -20,6 +20,7 @@ EXPLANATION = (
     "is op.tf + fall_time(...) for pulses and op.tf + 2*rise_time for non-pulses; the start time is max(t0, *phase barriers). ALIGN: the alignment target is the max over channels of the end "
     "(with fall time iff at_rest) and each channel is delayed by target - its *plain* end. NOT decided: minimality ('earliest instant') and numerical fall times."
     " Round 5 (added): the other channel's fall time is taken in the mode the examined slot was played in (`in_eom_mode(op)`); align iterates its common end to a fixed point every channel can reach with a valid delay; estimate_added_delay hands make_next_pulse_slot the inputs the add hands it (KNOWN finding: it cannot pass phase_drift_params)."
+    ' Round 6 (added after the fifth independent round of breaking changes): the align iteration compares plain slot ends (the rest time is added once, after the loop); estimate_added_delay reads the block end through `is None`, not truthiness (ZERO net: tf).'
 )
 ASSUMPTIONS = ["sibling agreement is equality of the symbolic normal forms of the argument expressions (pstatic/sym.py): temporaries, private helpers and conditional forms do not matter", "state mutation between two reads of the same attribute path is not modelled by the normal form"]
 
